@@ -517,6 +517,39 @@ func l0ParseGoString(wire string) string {
 	return f(v)
 }
 
+// hasNestedEmptyConcat: the expression contains  l + r  where l is a literal with a nested untyped empty leaf ([[]]+…)
+func hasNestedEmptyConcat(e *pexpr) bool {
+	if e == nil {
+		return false
+	}
+	if e.K == "bin" && e.Op == "+" && (e.Args[0].K == "arr" || e.Args[0].K == "map") && len(e.Args[0].Args) > 0 && hasEmptyLit(e.Args[0]) {
+		return true
+	}
+	for _, a := range e.Args {
+		if hasNestedEmptyConcat(a) {
+			return true
+		}
+	}
+	return false
+}
+
+func hasEmptyLit(e *pexpr) bool {
+	if e == nil {
+		return false
+	}
+	if (e.K == "arr" || e.K == "map") && len(e.Args) == 0 {
+		return true
+	}
+	if e.K == "arr" || e.K == "map" {
+		for _, a := range e.Args {
+			if hasEmptyLit(a) {
+				return true
+			}
+		}
+	}
+	return false
+}
+
 // hasEmptyRepeat: the expression contains  [] * e  (the untyped empty array repeated)
 func hasEmptyRepeat(e *pexpr) bool {
 	if e == nil {
@@ -1100,6 +1133,9 @@ func c04Family(symptom, why, form string, e *pexpr, shown string) string {
 		case "wrapany-untyped-array", "wrapany-untyped-map":
 			return "wrapany-panic:untyped-empty-nonliteral"
 		case "wrapany-incompatible":
+			if hasNestedEmptyConcat(e) {
+				return "concat-left-biased-type"
+			}
 			if mixed[form] {
 				return "wrapany-panic:combine-dropped-fixed"
 			}
@@ -1117,6 +1153,8 @@ func c04Family(symptom, why, form string, e *pexpr, shown string) string {
 			return "literal-with-variable-treated-as-constant"
 		case form == "variable-with-empty-literal":
 			return "combine-not-strictest"
+		case (form == "index-of-literal" || form == "dot-of-literal") && why == "spec-accept-impl-reject":
+			return "constant-element-expression-treated-as-variable"
 		}
 	case "typeof":
 		switch form {
@@ -1212,6 +1250,7 @@ func c04Corpus(r *Result, model, spec *Model) {
 		{"combine-drops-fixed", "x := [1]\narr := [[2] x [\"a\"]]\nprint arr\n", "wrapany-panic:combine-dropped-fixed"},
 		{"empty-repetition", "x := [] * 3\ny := x + 1\nprint y\n", "repeat-empty-typed-by-right-operand"},
 		{"concat-into-any-array", "a:[]any\na = [1] + [2]\nprint a\n", "wrapany-panic:convertible-nonliteral"},
+		{"concat-nested-empty-into-string-arrays", "t:[][]string\nt = [[]]+[[1]]\nprint t\n", "concat-left-biased-type"},
 		{"call-result-into-any-array", "func f:[]num\n    return [1]\nend\na:[]any\na = f\nprint a\n", "wrapany-panic:convertible-nonliteral"},
 		{"slice-of-empty-declared", "x := [][:]\nprint x\n", "wrapany-panic:untyped-empty-nonliteral"},
 		{"typeof-group-slice-empty", "print (typeof ([][:]))\n", "group-infer-panic"},
